@@ -149,6 +149,15 @@ func (prop) Run(t *testing.T, tape *kernel.Tape, sc kernel.Scenario) *kernel.Res
 	if tape.Bool(3, "auth-writer") {
 		authQ, authKeys = mkQuery("auth")
 	}
+	// a signing auth writer looks at the request it is given (path, method, query, headers, body) before it
+	// writes anything: looking must not change what is sent
+	authReads := tape.Bool(3, "auth-writer-reads-the-request")
+	if authReads {
+		env.Fault("auth-writer-reads-the-request")
+		if authQ == nil {
+			authQ = url.Values{}
+		}
+	}
 	pattern := patPath
 	if len(patQ) > 0 {
 		pattern += "?" + patQ.Encode()
@@ -299,6 +308,13 @@ func (prop) Run(t *testing.T, tape *kernel.Tape, sc kernel.Scenario) *kernel.Res
 			ProducesMediaTypes: []string{"application/json"}, ConsumesMediaTypes: []string{"application/json"}}
 		if authQ != nil {
 			op.AuthInfo = runtime.ClientAuthInfoWriterFunc(func(req runtime.ClientRequest, _ strfmt.Registry) error {
+				if authReads {
+					_ = req.GetPath()
+					_ = req.GetMethod()
+					_ = req.GetQueryParams()
+					_ = req.GetHeaderParams()
+					_ = req.GetBody()
+				}
 				for _, k := range authKeys {
 					_ = req.SetQueryParam(k, authQ[k]...)
 				}
